@@ -671,6 +671,7 @@ func prepass(path string, fd *ast.FuncDecl) *ast.FuncDecl {
 	destructure(path, fd)
 	expandHelpers(path, fd)
 	inlineStmtCalls(path, fd)
+	inlineBoolGuards(path, fd)
 	normaliseSmall(fd)
 	propagateLenCap(fd)
 	normaliseIndexLoops(fd)
@@ -1938,4 +1939,351 @@ func normaliseSmall(fd *ast.FuncDecl) {
 		}
 		return true
 	})
+}
+
+// Guard calls. `if h(a…) { return }` / `if !h(a…) { return }` — h a bool-valued local closure or unexported function of
+// the file — is replaced by h's body in which `return b` ends the goroutine when b makes the condition true and falls
+// through to what follows the `if` otherwise (`return E` for a non-literal E becomes `if [!]E { return }`). To make the
+// fall-through expressible without jumps, an `if` of h's body whose branch always ends in a return takes the rest of
+// h's body as its `else`; a `select` with returning arms must be h's last statement. Parameters are renamed to
+// identifier arguments; another argument expression is substituted when the parameter occurs exactly once (it is then
+// evaluated once, at the same point). Locals of h must be new to the caller.
+func inlineBoolGuards(path string, fd *ast.FuncDecl) {
+	for round := 0; round < 4; round++ {
+		changed := false
+		closures := map[string]*ast.FuncLit{}
+		ast.Inspect(fd.Body, func(n ast.Node) bool {
+			if as, ok := n.(*ast.AssignStmt); ok && as.Tok == token.DEFINE && len(as.Lhs) == 1 && len(as.Rhs) == 1 {
+				if i, ok := as.Lhs[0].(*ast.Ident); ok {
+					if l, ok := as.Rhs[0].(*ast.FuncLit); ok && l.Type.Results != nil && len(l.Type.Results.List) == 1 && src(l.Type.Results.List[0].Type) == "bool" {
+						closures[i.Name] = l
+					}
+				}
+			}
+			return true
+		})
+		// the caller's names: everything outside the bodies of the bool closures themselves
+		names := map[string]bool{}
+		isClosureLit := map[*ast.FuncLit]bool{}
+		for _, l := range closures {
+			isClosureLit[l] = true
+		}
+		ast.Inspect(fd, func(n ast.Node) bool {
+			if l, ok := n.(*ast.FuncLit); ok && isClosureLit[l] {
+				return false
+			}
+			if i, ok := n.(*ast.Ident); ok {
+				names[i.Name] = true
+			}
+			return true
+		})
+		var doList func(list []ast.Stmt) []ast.Stmt
+		doList = func(list []ast.Stmt) []ast.Stmt {
+			out := []ast.Stmt{}
+			for _, st := range list {
+				is, ok := st.(*ast.IfStmt)
+				if ok && is.Init == nil && is.Else == nil && len(is.Body.List) == 1 {
+					if r, ok := is.Body.List[0].(*ast.ReturnStmt); ok && len(r.Results) == 0 {
+						cond, exitOn := is.Cond, true
+						if u, ok := cond.(*ast.UnaryExpr); ok && u.Op == token.NOT {
+							cond, exitOn = u.X, false
+						}
+						if call, ok := cond.(*ast.CallExpr); ok {
+							if body := guardBody(path, fd, call, exitOn, closures, names); body != nil {
+								out = append(out, body...)
+								changed = true
+								continue
+							}
+						}
+					}
+				}
+				ast.Inspect(st, func(m ast.Node) bool {
+					switch y := m.(type) {
+					case *ast.BlockStmt:
+						y.List = doList(y.List)
+						return false
+					case *ast.CaseClause:
+						y.Body = doList(y.Body)
+						return false
+					case *ast.CommClause:
+						y.Body = doList(y.Body)
+						return false
+					}
+					return true
+				})
+				out = append(out, st)
+			}
+			return out
+		}
+		fd.Body.List = doList(fd.Body.List)
+		if !changed {
+			break
+		}
+	}
+	// closures that are no longer mentioned
+	for {
+		removed := false
+		for k, st := range fd.Body.List {
+			if as, ok := st.(*ast.AssignStmt); ok && as.Tok == token.DEFINE && len(as.Lhs) == 1 && len(as.Rhs) == 1 {
+				if i, ok := as.Lhs[0].(*ast.Ident); ok {
+					if _, isLit := as.Rhs[0].(*ast.FuncLit); isLit {
+						cnt := 0
+						ast.Inspect(fd.Body, func(n ast.Node) bool {
+							if j, ok := n.(*ast.Ident); ok && j.Name == i.Name {
+								cnt++
+							}
+							return true
+						})
+						if cnt == 1 {
+							fd.Body.List = append(append([]ast.Stmt{}, fd.Body.List[:k]...), fd.Body.List[k+1:]...)
+							removed = true
+							break
+						}
+					}
+				}
+			}
+		}
+		if !removed {
+			break
+		}
+	}
+}
+
+func guardBody(path string, fd *ast.FuncDecl, call *ast.CallExpr, exitOn bool, closures map[string]*ast.FuncLit, callerNames map[string]bool) []ast.Stmt {
+	h, ok := call.Fun.(*ast.Ident)
+	if !ok || call.Ellipsis != token.NoPos {
+		return nil
+	}
+	var ftype *ast.FuncType
+	var body *ast.BlockStmt
+	if lit := closures[h.Name]; lit != nil {
+		// a private copy of the literal
+		e, err := parser.ParseExprFrom(fset, h.Name+" (closure)", printNode(lit), 0)
+		if err != nil {
+			return nil
+		}
+		cp := e.(*ast.FuncLit)
+		ftype, body = cp.Type, cp.Body
+	} else {
+		f := parse(path)
+		for _, d := range f.Decls {
+			if hd, ok := d.(*ast.FuncDecl); ok && hd.Recv == nil && hd.Name.Name == h.Name && !hd.Name.IsExported() && hd.Body != nil {
+				if hd.Type.Results != nil && len(hd.Type.Results.List) == 1 && len(hd.Type.Results.List[0].Names) == 0 && src(hd.Type.Results.List[0].Type) == "bool" {
+					ftype, body = hd.Type, hd.Body
+				}
+			}
+		}
+	}
+	if body == nil {
+		return nil
+	}
+	params := []string{}
+	for _, p := range ftype.Params.List {
+		if len(p.Names) == 0 {
+			return nil
+		}
+		for _, n := range p.Names {
+			params = append(params, n.Name)
+		}
+	}
+	if len(params) != len(call.Args) {
+		return nil
+	}
+	// parameter uses and assignments
+	occ := map[string]int{}
+	assigned := map[string]bool{}
+	ast.Inspect(body, func(n ast.Node) bool {
+		switch y := n.(type) {
+		case *ast.Ident:
+			occ[y.Name]++
+		case *ast.AssignStmt:
+			for _, l := range y.Lhs {
+				if i, ok := l.(*ast.Ident); ok {
+					assigned[i.Name] = true
+					if y.Tok == token.DEFINE && callerNames[i.Name] {
+						assigned["!clash"] = true
+					}
+				}
+			}
+		case *ast.ValueSpec:
+			for _, i := range y.Names {
+				if callerNames[i.Name] {
+					assigned["!clash"] = true
+				}
+			}
+		}
+		return true
+	})
+	if assigned["!clash"] {
+		return nil
+	}
+	ren := map[string]string{}
+	subst := map[string]ast.Expr{}
+	for k, p := range params {
+		if assigned[p] {
+			return nil
+		}
+		if i, ok := call.Args[k].(*ast.Ident); ok {
+			ren[p] = i.Name
+		} else if occ[p] == 1 {
+			subst[p] = call.Args[k]
+		} else if occ[p] != 0 {
+			return nil
+		}
+	}
+	ast.Inspect(body, func(n ast.Node) bool {
+		if i, ok := n.(*ast.Ident); ok {
+			if to, ok := ren[i.Name]; ok {
+				i.Name = to
+			}
+		}
+		return true
+	})
+	if len(subst) > 0 {
+		mapExprs(body, func(e ast.Expr) ast.Expr {
+			if i, ok := e.(*ast.Ident); ok {
+				if to, ok := subst[i.Name]; ok {
+					return to
+				}
+			}
+			return e
+		})
+	}
+	// T: returns become exits or fall-throughs
+	giveUp := false
+	var terminates func(list []ast.Stmt) bool // every path through list ends in a (former) return
+	terminates = func(list []ast.Stmt) bool {
+		if len(list) == 0 {
+			return false
+		}
+		switch y := list[len(list)-1].(type) {
+		case *ast.ReturnStmt:
+			return true
+		case *ast.IfStmt:
+			if y.Else == nil {
+				return false
+			}
+			eb, ok := y.Else.(*ast.BlockStmt)
+			return ok && terminates(y.Body.List) && terminates(eb.List)
+		case *ast.SelectStmt:
+			for _, cl := range y.Body.List {
+				if !terminates(cl.(*ast.CommClause).Body) {
+					return false
+				}
+			}
+			return true
+		}
+		return false
+	}
+	var T func(list []ast.Stmt, tail bool) []ast.Stmt
+	T = func(list []ast.Stmt, tail bool) []ast.Stmt {
+		out := []ast.Stmt{}
+		for k, st := range list {
+			last := k == len(list)-1
+			switch y := st.(type) {
+			case *ast.ReturnStmt:
+				if !last || !tail || len(y.Results) != 1 {
+					giveUp = true
+					return out
+				}
+				switch src(y.Results[0]) {
+				case "true", "false":
+					if (src(y.Results[0]) == "true") == exitOn {
+						out = append(out, &ast.ReturnStmt{})
+					}
+				default:
+					c := y.Results[0]
+					if !exitOn {
+						c = &ast.UnaryExpr{Op: token.NOT, X: c}
+					}
+					out = append(out, &ast.IfStmt{Cond: c, Body: &ast.BlockStmt{List: []ast.Stmt{&ast.ReturnStmt{}}}})
+				}
+				return out
+			case *ast.IfStmt:
+				hasRet := false
+				ast.Inspect(y, func(n ast.Node) bool {
+					switch n.(type) {
+					case *ast.FuncLit:
+						return false
+					case *ast.ReturnStmt:
+						hasRet = true
+					}
+					return true
+				})
+				if !hasRet {
+					out = append(out, st)
+					continue
+				}
+				if y.Init != nil && !last {
+					// the init's variables are scoped to the if: keep the statement form, rest goes to else
+				}
+				if y.Else == nil && terminates(y.Body.List) {
+					rest := T(list[k+1:], tail)
+					y.Body.List = T(y.Body.List, tail)
+					if len(rest) > 0 {
+						y.Else = &ast.BlockStmt{List: rest}
+					}
+					out = append(out, y)
+					return out
+				}
+				if last {
+					y.Body.List = T(y.Body.List, tail)
+					if eb, ok := y.Else.(*ast.BlockStmt); ok {
+						eb.List = T(eb.List, tail)
+					} else if y.Else != nil {
+						giveUp = true
+					}
+					out = append(out, y)
+					return out
+				}
+				giveUp = true
+				return out
+			case *ast.SelectStmt:
+				hasRet := false
+				ast.Inspect(y, func(n ast.Node) bool {
+					if _, ok := n.(*ast.ReturnStmt); ok {
+						hasRet = true
+					}
+					return true
+				})
+				if hasRet {
+					if !last || !tail {
+						giveUp = true
+						return out
+					}
+					for _, cl := range y.Body.List {
+						cc := cl.(*ast.CommClause)
+						cc.Body = T(cc.Body, true)
+					}
+				}
+				out = append(out, st)
+			default:
+				ast.Inspect(st, func(n ast.Node) bool {
+					switch n.(type) {
+					case *ast.FuncLit:
+						return false
+					case *ast.ReturnStmt:
+						giveUp = true
+					}
+					return true
+				})
+				out = append(out, st)
+			}
+		}
+		return out
+	}
+	res := T(body.List, true)
+	if giveUp {
+		return nil
+	}
+	if len(res) == 0 {
+		res = []ast.Stmt{&ast.EmptyStmt{}}
+	}
+	return res
+}
+
+func printNode(n ast.Node) string {
+	var sb strings.Builder
+	format.Node(&sb, fset, n)
+	return sb.String()
 }
